@@ -189,8 +189,14 @@ def run(build, args, env_extra=None, timeout=60, stdin_data=None, cwd=None, heap
     finally:
         r.wall = time.time() - t0
         for f, name in ((outf, "out"), (errf, "err")):
+            size = f.seek(0, 2)
             f.seek(0)
-            data = f.read(max_out)
+            if size <= max_out:
+                data = f.read(max_out)
+            else:                      # both ends: what was said first and what was said last
+                data = f.read(max_out // 2)
+                f.seek(size - max_out // 2)
+                data += b"\n...[%d bytes cut]...\n" % (size - max_out) + f.read(max_out // 2)
             f.close()
             setattr(r, name, data.decode("utf-8", "replace"))
         if os.path.exists(logf):
